@@ -49,5 +49,22 @@ Fixpoint wf_steps (S : list block) (l : list stepc) : bool :=
       wf_steps S' l'
   end.
 
+(** all blocks ever offered to the wallet form a valid universe ([Spec.valid_universe]): a txid
+    names one transaction, an output nullifier one output of one transaction *)
+Definition out_eqb (a b : out) : bool :=
+  optN_eqb (o_owner a) (o_owner b) && N.eqb (o_pool a) (o_pool b) && N.eqb (o_value a) (o_value b) && N.eqb (o_nf a) (o_nf b).
+Definition tx_eqb (a b : tx) : bool :=
+  N.eqb (t_id a) (t_id b) && list_eqb key_eqb (t_spends a) (t_spends b) && list_eqb out_eqb (t_outs a) (t_outs b).
+
+Definition case_blocks (l : list stepc) : list block :=
+  flat_map (fun st => match st with SScan bs _ _ => bs | _ => [] end) l.
+
+Definition univ_ok (U : list block) : bool :=
+  let T := all_txs U in
+  let O := flat_map (fun t => map (fun o => (t_id t, o)) (t_outs t)) T in
+  forallb (fun t => forallb (fun t' => negb (N.eqb (t_id t) (t_id t')) || tx_eqb t t') T) T
+  && forallb (fun p => forallb (fun q => negb (key_eqb (o_key (snd p)) (o_key (snd q)))
+                                         || (N.eqb (fst p) (fst q) && out_eqb (snd p) (snd q))) O) O.
+
 Definition wf_case (c : case) : bool :=
-  match c with Hist _ steps _ => wf_steps [] steps end.
+  match c with Hist _ steps _ => wf_steps [] steps && univ_ok (case_blocks steps) end.
